@@ -124,92 +124,68 @@ impl PathSliceList {
         w: &mut JsExprWriter<W>,
         scopes: &Vec<ScopeVar>,
         model: Option<bool>,
+        tail: &[&PathSlice],
     ) -> Result<(), TmplError> {
-        let br = |w: &mut JsExprWriter<W>| -> Result<(), TmplError> {
-            write!(w, "[")?;
-            let mut write_items = || -> Result<bool, TmplError> {
-                let mut iter = self.0.iter();
-                let mut need_slice_1 = false;
-                let mut need_comma = true;
-                if model == Some(true) {
-                    match iter.next() {
-                        Some(PathSlice::Ident(s)) => write!(w, r#"{}"#, gen_lit_str(s))?,
-                        Some(PathSlice::ScopeIndex(i)) => match &scopes[*i].lvalue_path {
-                            ScopeVarLvaluePath::Var {
-                                var_name,
-                                from_data_scope,
-                            } if *from_data_scope => {
-                                write!(w, r#"...{}"#, var_name)?;
-                                need_slice_1 = true;
-                            }
-                            _ => return Ok(false),
-                        },
-                        Some(PathSlice::Condition(..)) => {
-                            need_comma = false;
+        if let Some(PathSlice::Condition(cond, (true_br, _), (false_br, _))) = self.0.first() {
+            // the rest of the path continues whichever branch is taken
+            let mut rest: Vec<&PathSlice> = self.0[1..].iter().collect();
+            rest.extend_from_slice(tail);
+            write!(w, r#"{}?"#, cond)?;
+            true_br.write_lvalue_path(w, scopes, model, &rest)?;
+            write!(w, r#":"#)?;
+            false_br.write_lvalue_path(w, scopes, model, &rest)?;
+            return Ok(());
+        }
+        write!(w, "[")?;
+        let mut write_items = || -> Result<bool, TmplError> {
+            let mut need_slice_1 = false;
+            if model == Some(true) {
+                match self.0.first() {
+                    Some(PathSlice::Ident(s)) => write!(w, r#"{}"#, gen_lit_str(s))?,
+                    Some(PathSlice::ScopeIndex(i)) => match &scopes[*i].lvalue_path {
+                        ScopeVarLvaluePath::Var {
+                            var_name,
+                            from_data_scope,
+                        } if *from_data_scope => {
+                            write!(w, r#"...{}"#, var_name)?;
+                            need_slice_1 = true;
                         }
                         _ => return Ok(false),
-                    }
-                } else {
-                    match iter.next() {
-                        Some(PathSlice::Ident(s)) => write!(w, r#"0,{}"#, gen_lit_str(s))?,
-                        Some(PathSlice::ScopeIndex(i)) => match &scopes[*i].lvalue_path {
-                            ScopeVarLvaluePath::Invalid => return Ok(false),
-                            ScopeVarLvaluePath::Var { var_name, .. } => {
-                                write!(w, r#"...{}"#, var_name)?
-                            }
-                            ScopeVarLvaluePath::Script { abs_path } => {
-                                write!(w, r#"1,{}"#, gen_lit_str(abs_path))?
-                            }
-                            ScopeVarLvaluePath::InlineScript { path, mod_name } => {
-                                write!(w, r#"2,{},{}"#, gen_lit_str(path), gen_lit_str(mod_name))?
-                            }
-                        },
-                        _ => return Ok(false),
-                    }
+                    },
+                    _ => return Ok(false),
                 }
-                for x in iter {
-                    if need_comma {
-                        write!(w, ",")?;
-                    } else {
-                        need_comma = true;
-                    }
-                    match x {
-                        PathSlice::StaticMember(s) => write!(w, "{}", gen_lit_str(s))?,
-                        PathSlice::IndirectValue(i) => write!(w, "{}", i)?,
-                        _ => break,
-                    }
-                }
-                Ok(need_slice_1)
-            };
-            let need_slice_1 = write_items()?;
-            write!(w, "]")?;
-            if need_slice_1 {
-                write!(w, ".slice(1)")?;
-            }
-            Ok(())
-        };
-        if let Some(PathSlice::Condition(cond, (true_br, _), (false_br, _))) = self.0.first() {
-            if self.0.len() == 1 {
-                write!(w, r#"{}?"#, cond)?;
-                true_br.write_lvalue_path(w, scopes, model)?;
-                write!(w, r#":"#)?;
-                false_br.write_lvalue_path(w, scopes, model)?;
             } else {
-                write!(w, r#"{}?"#, cond)?;
-                if true_br.write_lvalue_path(w, scopes, model)?.is_some() {
-                    write!(w, r#".concat("#)?;
-                    br(w)?;
-                    write!(w, r#")"#)?;
-                }
-                write!(w, r#":"#)?;
-                if false_br.write_lvalue_path(w, scopes, model)?.is_some() {
-                    write!(w, r#".concat("#)?;
-                    br(w)?;
-                    write!(w, r#")"#)?;
+                match self.0.first() {
+                    Some(PathSlice::Ident(s)) => write!(w, r#"0,{}"#, gen_lit_str(s))?,
+                    Some(PathSlice::ScopeIndex(i)) => match &scopes[*i].lvalue_path {
+                        ScopeVarLvaluePath::Invalid => return Ok(false),
+                        ScopeVarLvaluePath::Var { var_name, .. } => {
+                            write!(w, r#"...{}"#, var_name)?
+                        }
+                        ScopeVarLvaluePath::Script { abs_path } => {
+                            write!(w, r#"1,{}"#, gen_lit_str(abs_path))?
+                        }
+                        ScopeVarLvaluePath::InlineScript { path, mod_name } => {
+                            write!(w, r#"2,{},{}"#, gen_lit_str(path), gen_lit_str(mod_name))?
+                        }
+                    },
+                    _ => return Ok(false),
                 }
             }
-        } else {
-            br(w)?;
+            for x in self.0.iter().skip(1).chain(tail.iter().copied()) {
+                write!(w, ",")?;
+                match x {
+                    PathSlice::StaticMember(s) => write!(w, "{}", gen_lit_str(s))?,
+                    PathSlice::IndirectValue(i) => write!(w, "{}", i)?,
+                    _ => break,
+                }
+            }
+            Ok(need_slice_1)
+        };
+        let need_slice_1 = write_items()?;
+        write!(w, "]")?;
+        if need_slice_1 {
+            write!(w, ".slice(1)")?;
         }
         Ok(())
     }
@@ -375,10 +351,11 @@ impl PathAnalysisState {
         w: &mut JsExprWriter<W>,
         scopes: &Vec<ScopeVar>,
         model: Option<bool>,
+        tail: &[&PathSlice],
     ) -> Result<Option<()>, TmplError> {
         match &self {
             PathAnalysisState::InPath(psl) if psl.is_legal_lvalue_path(scopes, model) => {
-                psl.to_lvalue_path_arr(w, scopes, model)?;
+                psl.to_lvalue_path_arr(w, scopes, model, tail)?;
                 Ok(Some(()))
             }
             _ => {
@@ -1255,7 +1232,7 @@ impl ExpressionProcGen {
         scopes: &Vec<ScopeVar>,
         model: Option<bool>,
     ) -> Result<(), TmplError> {
-        self.pas.write_lvalue_path(w, scopes, model)?;
+        self.pas.write_lvalue_path(w, scopes, model, &[])?;
         Ok(())
     }
 
